@@ -361,3 +361,13 @@ class TopData(DataFn):
 
 TOP_DATA = TopData()
 TOP_DATA.callee_contracts = {}
+
+
+# fixed native witness programs for the data contracts: consulted when an obligation of the named clause is left undecided
+import os as _os
+with open(_os.path.join(_os.path.dirname(_os.path.dirname(_os.path.abspath(__file__))), 'native', 'witness', 'data_witness.py'),
+          encoding='utf-8') as _fh:
+    DATA_WITNESS = _fh.read()
+FilterData.native_witness = {'kept-count': DATA_WITNESS, 'kept-rows-in-order': DATA_WITNESS, 'kept-slots-distinct': DATA_WITNESS,
+                             'C19.filter-keeps-exactly-the-truthy-rows-in-order': DATA_WITNESS, 'kept-count-monotone': DATA_WITNESS}
+AddCalculatedField.native_witness = {'C19.every-row-gets-the-expression-value': DATA_WITNESS}
